@@ -386,7 +386,8 @@ def install(lib, np_):
     f = VOpaque('finfo')
     f.of_term = getattr(dt, 'of_term', None)
     return f
-  lib.opaque_attr = {('finfo', 'eps'): lambda base=None: VReal(TH.eps_of(base.of_term) if getattr(base, 'of_term', None) is not None else TH.EPS)}
+  lib.opaque_attr = {('dtype', 'kind'): lambda base=None: VStr(base.what.split(':')[1]) if ':' in base.what and len(base.what.split(':')[1]) == 1 else VOpaque('dtype.kind'),
+                     ('finfo', 'eps'): lambda base=None: VReal(TH.eps_of(base.of_term) if getattr(base, 'of_term', None) is not None else TH.EPS)}
 
   # ----------------------------------------------------------------------------------- linear algebra
   @ext('numpy.linalg.cholesky', 'ASSUMED: returns lower-triangular C with C C^T = a for symmetric positive definite a; LinAlgError otherwise')
